@@ -14,6 +14,8 @@
 // to reallocate (needed length > cap()) while the model says the cell is shared is replaced by a no-op and counted
 // (excluded_known).  The op `unsafe_push` (never generated) performs it anyway: witness of KF-1.
 #include "common/vfrc.h"
+#include <functional>
+#include "common/ref_codec.h"
 #include <asl/Array.h>
 #include <asl/Stack.h>
 #include <asl/Queue.h>
@@ -1202,8 +1204,13 @@ static void run_measured(const std::string& part, const vf::Case& c)
 	VF_CHECK(d == 0, (long)d, " bytes still allocated after every handle was dropped (storage not released)");
 }
 
+static void run_giant(long long n);
 void vf_run_case(const std::string& part, const vf::Case& c)
 {
+	if (!c.ops.empty() && c.ops[0].name == "giant") {
+		run_giant(c.ops[0].i(0));
+		return;
+	}
 	prepare();
 	if (vf::runner().args.mode != "search") {
 		// --replay: report the oracle's own message; the exit-time leak check would otherwise replace a "live instances" /
@@ -1445,6 +1452,66 @@ static void boundary_sweep(const vf::Args& a, const std::string& part, size_t el
 	vf::stats().part("boundary_sweep." + part, n, false);
 }
 
+
+// ---------------------------------------------------------------------------------------------
+// giant arrays: byte counts of 2^31 and more (element counts stay far below INT_MAX). A scripted history on Array<double> /
+// Queue<double> of n elements (default 270,000,000 = 2.16 GB) with a closed-form oracle: element i of the initial array is
+// f(i) = i * 0.5 + 1, every operation's effect on the index map is known, and ends plus 2000 sampled positions are compared.
+static double giant_f(long long i) { return (double)i * 0.5 + 1; }
+static void giant_check(const Array<double>& a, long long want_len, const std::function<double(long long)>& want, const char* what, uint64_t seed)
+{
+	VF_CHECK(a.length() == want_len, "giant array, ", what, ": length() = ", a.length(), " want ", want_len);
+	ref::SplitMix r(seed);
+	for (int k = 0; k < 2006; k++) {
+		long long i = k == 0 ? 0 : k == 1 ? want_len - 1 : k == 2 ? 1 : k == 3 ? want_len - 2 : k == 4 ? want_len / 2 : k == 5 ? (1LL << 28) % want_len : (long long)(r.next() % (uint64_t)want_len);
+		double got = a[(int)i], w = want(i);
+		VF_CHECK(got == w, "giant array (", want_len, " doubles), ", what, ": element ", i, " is ", got, " want ", w);
+	}
+}
+static void run_giant(long long n)
+{
+	if (n < 1000)
+		n = 1000;
+	Array<double> a((int)n);
+	VF_CHECK(a.length() == n, "giant array: Array(n) has length ", a.length());
+	double* d = a.data();
+	for (long long i = 0; i < n; i++)
+		d[i] = giant_f(i);
+	giant_check(a, n, [](long long i) { return giant_f(i); }, "after construction", 1);
+	a.remove(0);
+	giant_check(a, n - 1, [](long long i) { return giant_f(i + 1); }, "after remove(0)", 2);
+	a.insert(0, -7.0);
+	giant_check(a, n, [](long long i) { return i == 0 ? -7.0 : giant_f(i); }, "after remove(0); insert(0, x)", 3);
+	a.remove(3, 5);
+	giant_check(a, n - 5, [](long long i) { return i == 0 ? -7.0 : i < 3 ? giant_f(i) : giant_f(i + 5); }, "after remove(3, 5)", 4);
+	a << 99.0;
+	giant_check(a, n - 4, [=](long long i) { return i == 0 ? -7.0 : i < 3 ? giant_f(i) : i == n - 5 ? 99.0 : giant_f(i + 5); }, "after << x", 5);
+	{
+		Array<double> c = a.clone();
+		a[1] = 12345.0;
+		giant_check(c, n - 4, [=](long long i) { return i == 0 ? -7.0 : i < 3 ? giant_f(i) : i == n - 5 ? 99.0 : giant_f(i + 5); }, "clone() after a later change of its source", 6);
+		a[1] = giant_f(1);
+	}
+	{
+		int h = (int)((n - 4) / 2);
+		Array<double> sl = a.slice(h, (int)(n - 4));
+		giant_check(sl, n - 4 - h, [=](long long i) { return i + h == n - 5 ? 99.0 : giant_f(i + h + 5); }, "slice(n/2, n)", 7);
+	}
+	a.resize((int)(n - 104));
+	giant_check(a, n - 104, [=](long long i) { return i == 0 ? -7.0 : i < 3 ? giant_f(i) : giant_f(i + 5); }, "after resize(n - 100)", 8);
+	{
+		Queue<double> q;
+		q.resize((int)n);
+		double* qd = q.data();
+		for (long long i = 0; i < n; i++)
+			qd[i] = giant_f(i);
+		double g0 = q.get(), g1 = q.get();
+		VF_CHECK(g0 == giant_f(0) && g1 == giant_f(1), "giant Queue<double> (", n, " elements): two get() calls returned ", g0, " and ", g1, " want ", giant_f(0), " and ", giant_f(1));
+		giant_check(q, n - 2, [](long long i) { return giant_f(i + 2); }, "Queue after two get()", 9);
+	}
+	vf::stats().cls(n * 8 >= (1LL << 31) ? "giant.byte_count>=2^31" : "giant.small(replay)");
+}
+
 void vf_search(const vf::Args& a)
 {
 	prepare();
@@ -1452,6 +1519,14 @@ void vf_search(const vf::Args& a)
 		const char* part;
 		size_t elsize;
 	} parts[] = {{"int", sizeof(int)}, {"elem", sizeof(Elem)}, {"str", sizeof(String)}};
+	if (a.worker == 0) {
+		vf::Case g;
+		g.add(vf::Op("giant", {270000000}));
+		if (vf::runner().run("giant", g)) {
+			vf::stats().nt(vf::fnv(vf::serialize(g)));
+			vf::stats().part("giant.scripted_history_on_2.16GB_arrays", 1, false);
+		}
+	}
 	for (auto& p : parts) {
 		std::string part = p.part;
 		[&]() { boundary_sweep(a, part, p.elsize); }();
